@@ -15,19 +15,26 @@ META = {
     ],
 }
 META["text"] = (
-    "Proved in Coq over the reals, for all inputs, about the model Model/Actuation.v of mj_fwdActuation (single-input single-output actuators without delay, dyntype none/integrator/filter/filterexact/muscle, "
-    "gaintype fixed/affine/muscle, biastype none/affine/muscle, non-periodic transmission): every clamp (ctrlrange, forcerange, actrange in mj_nextActivation, joint actfrcrange) lands in its range when lo <= hi and is the identity inside it "
-    "(C27_clip_range, C27_clip_id, C27_ctrl_clamped, C27_force_clamped, C27_next_activation_in_range, C27_dof_clamped); with mjDSBL_CLAMPCTRL or ctrllimited off the control is passed unchanged (C27_ctrl_unclamped); "
-    "an actuator whose group bit is set in disableactuator (groups 0..30) has zero actuator_force after the whole pipeline (gain/bias, tendon force scaling, forcerange clamp: unconditional since the fix f11675ac7 of /repo, before it a forcerange excluding 0 gave clamp(0)), for every state, and a zero force contributes nothing to qfrc_actuator (C27_disabled_zero_force, C27_disabled_group_bit, C27_zero_force_no_contribution); "
-    "the affine law: force = (g0 + g1 l + g2 v) u + b0 + b1 l + b2 v, in particular the position servo kp (u - l) - kv v (C27_affine_law, C27_position_servo); "
-    "qfrc_actuator before the per-dof post-processing is moment^T force: additive and homogeneous in the force vector (C27_moment_additive, C27_moment_homogeneous); "
-    "muscle: the length curve lies in [0,1], the velocity curve in [0,fvmax] for fvmax >= 1, hence mju_muscleGain <= 0 and >= -force*fvmax for a non-negative peak force, mju_muscleBias <= 0 for non-negative force and fpmax "
-    "(MuJoCo's sign convention: muscles pull), mju_sigmoid in [0,1]; activation dynamics move act towards the clamped control (C27_muscle_FL_range, C27_muscle_FV_range, C27_muscle_gain_sign, C27_muscle_bias_sign, C27_sigmoid_range, C27_muscle_dynamics_sign, for all parameters). "
-    "Tied on every run: the exported mju_muscleGain/Bias/Dynamics/GainLength/sigmoid on random and branch-boundary inputs, and mj_fwdActuation outputs (act_dot, actuator_force, qfrc_actuator) on mjgen models extended with muscles, actuator groups and disableactuator masks, "
-    "forcerange, joint and tendon actuator-force ranges, actuator gravity compensation, actearly and mjDSBL_CLAMPCTRL, all evaluated in the Coq model at binary64. "
-    "Oracle on implementation output (independent of the model): qfrc_actuator = clamp(moment^T force + actuator gravcomp) to 1e-12 scaled, forces within forcerange, clamped dofs within actfrcrange, disabled groups give exactly zero force and frozen activations over a step, "
-    "activations within actrange after mj_step, the affine/filter/integrator laws recomputed from the state with the clamped control, muscle forces non-positive. "
-    "Not covered: PID/DC-motor/SO3/user actuator types, delays, periodic (ball/site) servo setpoints, mj_transmission itself (moment arms are inputs), bad-control zeroing beyond the model's ctrl_vector, sleeping.")
+    "Proved in Coq over the reals, for all inputs, about the model Model/Actuation.v of mj_fwdActuation (actuators without delay: single-input single-output actuators with dyntype none/integrator/filter/filterexact/muscle, "
+    "gaintype fixed/affine/muscle, biastype none/affine/muscle, non-periodic transmission; stateless SO3 orientation servos with 3 or 4 controls and 3 force outputs). The model keeps three index spaces apart: actuator index (parameters, forcerange), "
+    "control index (ctrl, ctrlrange, through ctrladr) and output index (actuator_length/velocity/force, moment rows, through outadr). "
+    "Clamps: every clamp lands in its range when lo <= hi and is the identity inside it (C27_clip_range, C27_clip_id, C27_ctrl_clamped, C27_next_activation_in_range, C27_dof_clamped); with mjDSBL_CLAMPCTRL or ctrllimited off the control is passed unchanged (C27_ctrl_unclamped); "
+    "one step of the forcerange loop clips the OUTPUT block [outadr, outadr+outnum) of actuator i with the forcerange OF ACTUATOR i, leaves every entry outside that block untouched and does nothing for actuators that are not force-limited or are disabled "
+    "(C27_clamp_uses_own_range, C27_clamp_frame, C27_clamp_skipped); an SO3 block ends with norm <= forcerange[1] of its actuator (C27_so3_force_clamped); through the whole pipeline, for actuator lists mixing scalar and multi-output actuators in any order, "
+    "the actuator_force entry at the output address of an enabled force-limited scalar actuator lies in that actuator's own forcerange (C27_force_clamped, under the non-overlapping cumulative output layout which the driver checks on every model). "
+    "Disabled groups: mj_actuatorDisabled tests exactly bit group for groups 0..30 (C27_disabled_group_bit); every entry of the output block of a disabled actuator (scalar or SO3) is zero after gain/bias, tendon force scaling and forcerange clamp, for every state "
+    "(C27_disabled_zero_force; unconditional since fix f11675ac7 of /repo), and a zero force contributes nothing to qfrc_actuator (C27_zero_force_no_contribution); with mjDSBL_ACTUATION act_dot, actuator_force and qfrc_actuator are all zero (C27_actuation_disabled_zero, fix 21bbfbf26). "
+    "Laws: force = (g0 + g1 l + g2 v) u + b0 + b1 l + b2 v, the position servo kp (u - l) - kv v, gain*act + bias for stateful actuators (C27_affine_law, C27_position_servo, C27_stateful_law); "
+    "moment^T force is additive and homogeneous in the force vector (C27_moment_additive, C27_moment_homogeneous); "
+    "muscle: length curve in [0,1], velocity curve in [0,fvmax] for fvmax >= 1, mju_muscleGain in [-force*fvmax, 0] and mju_muscleBias <= 0 for non-negative force and fpmax (MuJoCo's sign convention: muscles pull), mju_sigmoid in [0,1], "
+    "activation dynamics move act towards the clamped control for all parameters (C27_muscle_FL_range, C27_muscle_FV_range, C27_muscle_gain_sign, C27_muscle_bias_sign, C27_sigmoid_range, C27_muscle_dynamics_sign). "
+    "Tied on every run: the exported mju_muscleGain/Bias/Dynamics/GainLength/sigmoid on random and branch-boundary inputs, and mj_fwdActuation outputs (act_dot, actuator_force over all outputs, qfrc_actuator) on mjgen models extended with SO3 servos (exponential-map and quaternion targets) "
+    "placed between scalar actuators (so that nactuator, nu and nout all differ), force-limited scalar motors after them with saturating controls, muscles, actuator groups and disableactuator masks, joint and tendon actuator-force ranges, actuator gravity compensation, actearly, "
+    "mjDSBL_CLAMPCTRL and mjDSBL_ACTUATION (with stale act_dot planted before the call), all evaluated in the Coq model at binary64. "
+    "Oracle on implementation output (independent of the model; ranges read by actuator index, outputs by outadr, controls by ctrladr): every enabled force-limited scalar actuator has actuator_force[outadr] within forcerange[i] and equal to clamp(gain*input + bias) recomputed with the clamped control, "
+    "SO3 blocks have norm <= forcerange[1], qfrc_actuator = clamp(moment^T force + actuator gravcomp) to 1e-12 scaled, clamped dofs within actfrcrange, disabled groups give exactly zero output blocks and frozen activations over a step, "
+    "activations within actrange after mj_step, filter/integrator act_dot laws, muscle forces non-positive, everything zero with mjDSBL_ACTUATION. "
+    "Not covered: PID/DC-motor/user actuator types, SO3 with integrator dynamics or site transmission (the SO3 force law itself is tied but has no theorem beyond the clamp), delays, periodic (ball/site) scalar servo setpoints, mj_transmission itself (moment arms are inputs), sleeping.")
 META["note"] = ("Trusted: Coq kernel + the standard-library real-number axioms listed in trusted_base; hand-written model; Lib/FloatFn.v (executable side); "
                 "correspondence harness (gcc, driver c27_act.c which #includes engine/engine_forward.c, mjgen.h).")
 
@@ -73,49 +80,51 @@ class A:
     pass
 
 
-def parse_act(t):
+def parse_act(t, idx):
+    """A-line of the driver: parameters by ACTUATOR index; addresses into the control and output index spaces"""
     a = A()
-    i = 1
+    a.idx = idx
     a.dyn, a.gain, a.bias = int(t[1]), int(t[2]), int(t[3])
     i = 4
     a.dynprm = [fl(x) for x in t[i:i + 3]]; i += 3
     a.gainprm = [fl(x) for x in t[i:i + 9]]; i += 9
     a.biasprm = [fl(x) for x in t[i:i + 9]]; i += 9
-    a.cl = int(t[i]); a.crange = [fl(t[i + 1]), fl(t[i + 2])]; i += 3
     a.fl = int(t[i]); a.frange = [fl(t[i + 1]), fl(t[i + 2])]; i += 3
     a.al = int(t[i]); a.arange = [fl(t[i + 1]), fl(t[i + 2])]; i += 3
     a.early, a.group, a.actnum, a.actadr = int(t[i]), int(t[i + 1]), int(t[i + 2]), int(t[i + 3]); i += 4
     a.lr = [fl(t[i]), fl(t[i + 1])]; a.acc0 = fl(t[i + 2]); i += 3
     a.tendon = int(t[i]); i += 1
-    a.ctrl, a.act, a.len, a.vel, a.dot, a.force = [fl(x) for x in t[i:i + 6]]
-    if len(t) != i + 6:
+    a.ctrladr, a.ctrlnum, a.ctrlspec, a.outadr, a.outnum = [int(x) for x in t[i:i + 5]]; i += 5
+    a.act, a.dot = fl(t[i]), fl(t[i + 1])
+    if len(t) != i + 2:
         raise ValueError("actuator line length")
+    a.so3 = a.gain == 4
     return a
 
 
 def coq_act(a):
-    return "(%s, %s, %s, (%s, %s, %s), %s, %s, (%s, %s, %s), (%s, %s, %s), (%s, %s, %s), %s, %s, %s, (%s, %s), %s, %s)" % (
+    return "(%s, %s, %s, (%s, %s, %s), %s, %s, (%s, %s, %s), (%s, %s, %s), %s, %s, %s, (%s, %s), %s, %s, (%s, %s, %s, %s), %s)" % (
         zz(a.dyn), zz(a.gain), zz(a.bias), ff(a.dynprm[0]), ff(a.dynprm[1]), ff(a.dynprm[2]), F.flist(a.gainprm), F.flist(a.biasprm),
-        bb(a.cl), ff(a.crange[0]), ff(a.crange[1]), bb(a.fl), ff(a.frange[0]), ff(a.frange[1]), bb(a.al), ff(a.arange[0]), ff(a.arange[1]),
-        bb(a.early), zz(a.group), zz(a.actnum), ff(a.lr[0]), ff(a.lr[1]), ff(a.acc0), zz(a.tendon))
+        bb(a.fl), ff(a.frange[0]), ff(a.frange[1]), bb(a.al), ff(a.arange[0]), ff(a.arange[1]),
+        bb(a.early), zz(a.group), zz(a.actnum), ff(a.lr[0]), ff(a.lr[1]), ff(a.acc0), zz(a.tendon),
+        zz(a.ctrladr), zz(a.ctrlspec), zz(a.outadr), zz(a.outnum), ff(a.act))
 
 
 PRE = """
-Definition AT := (Z * Z * Z * (float * float * float) * list float * list float * (bool * float * float) * (bool * float * float) *
-                  (bool * float * float) * bool * Z * Z * (float * float) * float * Z)%type.
-Definition mkA (t : AT) : Actuator :=
-  match t with (dy, ga, bi, dp, gp, bp, (cl, clo, chi), (fl, flo, fhi), (al, alo, ahi), ea, gr, num, lr, acc0, td) =>
-    mkActuator dy ga bi dp gp bp cl (clo, chi) fl (flo, fhi) al (alo, ahi) ea gr num lr acc0 td end.
+Definition AT := (Z * Z * Z * (float * float * float) * list float * list float * (bool * float * float) *
+                  (bool * float * float) * bool * Z * Z * (float * float) * float * Z * (Z * Z * Z * Z) * float)%type.
+Definition mkA (t : AT) : Actuator * float :=
+  match t with (dy, ga, bi, dp, gp, bp, (fl, flo, fhi), (al, alo, ahi), ea, gr, num, lr, acc0, td, (cadr, cspec, oadr, onum), act) =>
+    (mkActuator dy ga bi dp gp bp fl (flo, fhi) al (alo, ahi) ea gr num lr acc0 td cadr cspec oadr onum, act) end.
 Definition mkD (t : bool * float * bool * float * float) : option float * bool * float * float :=
   match t with (add, g, lim, lo, hi) => (if add then Some g else None, lim, lo, hi) end.
-Definition chkM (c : Z * float * bool * nat * list AT * list float * list (float * float * float) * list (bool * float * float) *
-                     list (list float) * list (bool * float * bool * float * float) * (list float * list float * list float)) : bool :=
-  match c with (mask, h, noclamp, nv, acts, ctrl, st, tendons, moment, dofs, (dots, forces, qfrc)) =>
-    let A := map mkA acts in
-    let us := ctrl_vector noclamp A ctrl in
-    let f := actuator_forces mask h tendons A us st in
-    fclose_list TOL (act_dots A us st) dots && fclose_list TOL f forces &&
-    fclose_list TOL (qfrc_actuator nv moment f (map mkD dofs)) qfrc end.
+Definition chkM (c : (bool * Z * float * bool * nat * nat) * list AT * (list (bool * float * float) * list float * list float * list float) *
+                     list (bool * float * float) * list (list float) * list (bool * float * bool * float * float) *
+                     (list float * list float * list float)) : bool :=
+  match c with ((actoff, mask, h, noclamp, nout, nv), acts, (lims, ctrl, len, vel), tendons, moment, dofs, (dots, forces, qfrc)) =>
+    match fwd_actuation actoff mask h nout nv noclamp lims ctrl len vel (map mkA acts) tendons moment (map mkD dofs) with
+    | (md, mf, mq) => fclose_list TOL md dots && fclose_list TOL mf forces && fclose_list TOL mq qfrc
+    end end.
 Definition chkF (c : Z * list float * float) : bool :=
   match c with (op, a, out) =>
     let g := fun i => nth i a 0%float in
@@ -130,8 +139,8 @@ Definition chkF (c : Z * list float * float) : bool :=
 
 
 def law_force(a, h, mask, u):
-    """documented force of a non-muscle actuator before tendon scaling and forcerange (None: not covered by the oracle)"""
-    if a.gain == 2 or a.bias == 2 or a.dyn == 4:
+    """documented force of a scalar non-muscle actuator before tendon scaling and forcerange (None: not covered by the oracle)"""
+    if a.so3 or a.gain == 2 or a.bias == 2 or a.dyn == 4:
         return None
     if 0 <= a.group <= 30 and (mask >> a.group) & 1:
         return 0.0
@@ -155,7 +164,7 @@ def law_force(a, h, mask, u):
 def run(ctx):
     rng = ctx.rng
     big = ctx.tier != "quick"
-    ctx.coq_props(allowed_axioms=F.STD_AXIOMS, extra_targets=["Lib/Num.vo", "Lib/NumF.vo", "Lib/FloatFn.vo", "Model/Actuation.vo"])
+    ctx.coq_props(allowed_axioms=F.STD_AXIOMS, extra_targets=["Lib/Num.vo", "Lib/NumF.vo", "Lib/FloatFn.vo", "Model/Spatial.vo", "Model/Actuation.vo"])
     exe = ctx.driver("c27_act", ["c27_act.c"])
     if exe is None:
         return
@@ -208,7 +217,7 @@ def run(ctx):
         return
     pos = 0
     mcases, mmeta = [], []
-    stats = dict(models=0, skipped=0, actuators=0, disabled=0, ctrl_clamped=0, force_clamped=0, dof_clamped=0, tendon_scaled=0, muscles=0, actearly=0, gravcomp_dofs=0,
+    stats = dict(models=0, skipped=0, multi_output_models=0, so3_actuators=0, so3_clamped=0, scalar_limited_after_multi=0, actuation_off=0, actuators=0, disabled=0, ctrl_clamped=0, force_clamped=0, dof_clamped=0, tendon_scaled=0, muscles=0, actearly=0, gravcomp_dofs=0,
                  law_checks=0, by_type={})
     try:
         for r in req:
@@ -219,36 +228,54 @@ def run(ctx):
             if head[:2] != ["M", "OK"]:
                 ctx.broken.append(("correspondence", "generated model rejected", " ".join(head[:30]) + " request=%s" % (r,)))
                 continue
-            nu, nv, na, nt = int(head[3]), int(head[5]), int(head[7]), int(head[9])
-            h, mask, noclamp = fl(head[11]), int(head[13]), int(head[15])
+            nact, nu, nout, nv, na, nt = [int(head[k]) for k in (3, 5, 7, 9, 11, 13)]
+            h, mask, noclamp, actoff = fl(head[15]), int(head[17]), int(head[19]), int(head[21])
+            t = lines[pos].split(); pos += 1
+            if t[0] != "C" or len(t) != 1 + 4 * nu:
+                raise ValueError("C line")
+            lims = [(int(t[1 + 4 * c]), fl(t[2 + 4 * c]), fl(t[3 + 4 * c])) for c in range(nu)]
+            ctrl = [fl(t[4 + 4 * c]) for c in range(nu)]
+            t = lines[pos].split(); pos += 1
+            if t[0] != "O" or len(t) != 1 + 3 * nout:
+                raise ValueError("O line")
+            length = [fl(t[1 + 3 * o]) for o in range(nout)]
+            vel = [fl(t[2 + 3 * o]) for o in range(nout)]
+            force = [fl(t[3 + 3 * o]) for o in range(nout)]
             acts = []
-            for i in range(nu):
-                acts.append(parse_act(lines[pos].split())); pos += 1
+            for i in range(nact):
+                acts.append(parse_act(lines[pos].split(), i)); pos += 1
+            for a in acts:
+                if not a.so3:
+                    a.ctrl, a.len, a.vel, a.force = ctrl[a.ctrladr], length[a.outadr], vel[a.outadr], force[a.outadr]
             t = lines[pos].split(); pos += 1
             tendons = [(int(t[1 + 3 * k]), fl(t[2 + 3 * k]), fl(t[3 + 3 * k])) for k in range(nt)]
             t = lines[pos].split(); pos += 1
             mom = [fl(x) for x in t[1:]]
-            if len(mom) != nu * nv:
+            if len(mom) != nout * nv:
                 raise ValueError("moment size")
-            moment = [mom[i * nv:(i + 1) * nv] for i in range(nu)]
+            moment = [mom[i * nv:(i + 1) * nv] for i in range(nout)]
             t = lines[pos].split(); pos += 1
             dofs = [(int(t[1 + 5 * v]), fl(t[2 + 5 * v]), int(t[3 + 5 * v]), fl(t[4 + 5 * v]), fl(t[5 + 5 * v])) for v in range(nv)]
             t = lines[pos].split(); pos += 1
             qfrc = [fl(x) for x in t[1:]]
             t = lines[pos].split(); pos += 1
+            adot = [fl(x) for x in t[1:]]
+            t = lines[pos].split(); pos += 1
             anext = [fl(x) for x in t[1:]]
-            if len(qfrc) != nv or len(anext) != na:
+            if len(qfrc) != nv or len(anext) != na or len(adot) != na:
                 raise ValueError("vector sizes")
             stats["models"] += 1
+            if nout != nact:
+                stats["multi_output_models"] += 1
             case = {"request": "M %d %d %d %d" % r[1:]}
-            oracle(ctx, case, acts, tendons, moment, dofs, qfrc, anext, h, mask, noclamp, stats)
-            mcases.append("(%s, %s, %s, %d%%nat, [%s], %s, [%s], [%s], [%s], [%s], (%s, %s, %s))" % (
-                zz(mask), ff(h), bb(noclamp), nv, "; ".join(coq_act(a) for a in acts), F.flist([a.ctrl for a in acts]),
-                "; ".join("(%s, %s, %s)" % (ff(a.act), ff(a.len), ff(a.vel)) for a in acts),
+            oracle(ctx, case, acts, lims, ctrl, force, tendons, moment, dofs, qfrc, adot, anext, h, mask, noclamp, actoff, stats)
+            mcases.append("((%s, %s, %s, %s, %d%%nat, %d%%nat), [%s], ([%s], %s, %s, %s), [%s], [%s], [%s], (%s, %s, %s))" % (
+                bb(actoff), zz(mask), ff(h), bb(noclamp), nout, nv, "; ".join(coq_act(a) for a in acts),
+                "; ".join("(%s, %s, %s)" % (bb(l), ff(lo), ff(hi)) for l, lo, hi in lims), F.flist(ctrl), F.flist(length), F.flist(vel),
                 "; ".join("(%s, %s, %s)" % (bb(l), ff(lo), ff(hi)) for l, lo, hi in tendons),
                 "; ".join(F.flist(row) for row in moment),
                 "; ".join("(%s, %s, %s, %s, %s)" % (bb(ad), ff(g), bb(l), ff(lo), ff(hi)) for ad, g, l, lo, hi in dofs),
-                F.flist([a.dot for a in acts]), F.flist([a.force for a in acts]), F.flist(qfrc)))
+                F.flist([a.dot for a in acts]), F.flist(force), F.flist(qfrc)))
             mmeta.append(case)
         flits = []
         for op, a in fcases:
@@ -273,7 +300,7 @@ def run(ctx):
     except (ValueError, IndexError) as e:
         ctx.broken.append(("correspondence", "driver c27_act output not understood", "%s at line %d: %s" % (e, pos, lines[pos - 1][:300] if 0 < pos <= len(lines) else "")))
         return
-    imp = "From Coq Require Import ZArith PrimFloat Bool.\nFrom MJV Require Import Lib.Num Lib.NumF Lib.FloatFn Model.Actuation.\n"
+    imp = "From Coq Require Import ZArith PrimFloat Bool.\nFrom MJV Require Import Lib.Num Lib.NumF Lib.FloatFn Model.Spatial Model.Actuation.\n"
     fails = ctx.coq_eval("c27_model", imp, mcases, "chkM", pre=PRE, shard=40)
     for i in fails[:1]:
         ctx.violation("correspondence", mmeta[i], expected="Model/Actuation.v at binary64 (act_dot, actuator_force, qfrc_actuator)", observed="implementation output differs (tolerance 2^-30 scaled)",
@@ -289,9 +316,9 @@ def run(ctx):
         ctx.violation("correspondence", {"fn": opc[op], "args": a}, expected="Model/Actuation.v muscle function at binary64", observed="differs", found_input=False,
                       theorem="correspondence c27 muscle function " + opc[op], signature={"site": "muscle", "op": opc[op]})
     ctx.cov["evaluations"] = len(mcases) + len(flits)
-    ctx.cov["distinct_nontrivial"] = stats["ctrl_clamped"] + stats["force_clamped"] + stats["dof_clamped"] + stats["disabled"] + stats["muscles"] + len(flits)
+    ctx.cov["distinct_nontrivial"] = stats["ctrl_clamped"] + stats["force_clamped"] + stats["dof_clamped"] + stats["disabled"] + stats["muscles"] + stats["so3_actuators"] + len(flits)
     ctx.cov["rule"] = ("one evaluation = one generated model state (mj_forward: act_dot, actuator_force, qfrc_actuator of all its actuators compared with the Coq model at binary64) or one muscle-function call; "
-                       "non-trivial = actuator instances with an active ctrl clamp / active force clamp / disabled group / muscle type, dofs with an active joint force clamp, and all muscle-function calls (branch points included)")
+                       "non-trivial = actuator instances with an active ctrl clamp / active force clamp / disabled group / muscle type / so3 type, dofs with an active joint force clamp, and all muscle-function calls (branch points included)")
     ctx.cov["samples"] = [mmeta[0] if mmeta else None, {"fn": opc[fcases[0][0]], "args": fcases[0][1]}]
     ctx.cov["correspondence_disagreements"] = len(fails) + len(ffails)
     ctx.cov["support"]["stats"] = stats
@@ -299,22 +326,36 @@ def run(ctx):
                               % (len(mcases), stats["actuators"], len(flits), stats["law_checks"]))
 
 
-def oracle(ctx, case, acts, tendons, moment, dofs, qfrc, anext, h, mask, noclamp, stats):
+def oracle(ctx, case, acts, lims, ctrl, force, tendons, moment, dofs, qfrc, adot, anext, h, mask, noclamp, actoff, stats):
+    """ranges are looked up by ACTUATOR index (a.frange comes from actuator_forcerange[2*i]), outputs by OUTPUT address
+    (force[a.outadr + k]), controls by CONTROL address (ctrl[a.ctrladr + k], lims[control index])"""
     nv = len(qfrc)
-    # control as the actuator sees it
-    us = []
-    for a in acts:
-        u = a.ctrl
-        if not noclamp and a.cl:
-            u = clip(u, a.crange[0], a.crange[1])
-            if u != a.ctrl:
+    nout = len(force)
+    if actoff:
+        stats["actuation_off"] += 1
+        if any(force) or any(qfrc) or any(adot):
+            ctx.violation("impl_violation", case, expected="mjDSBL_ACTUATION: actuator_force, qfrc_actuator and act_dot all zero", observed={"force": force, "qfrc": qfrc, "act_dot": adot},
+                          theorem="C27_actuation_disabled_zero", signature={"site": "mj_fwdActuation", "class": "actuation-disabled"})
+        for a in acts:
+            if a.actnum and anext[a.actadr] != a.act:
+                ctx.violation("impl_violation", dict(case, actuator=a.idx), expected="activations frozen with mjDSBL_ACTUATION", observed=anext[a.actadr],
+                              theorem="C27_actuation_disabled_zero", signature={"site": "mj_advance", "class": "actuation-disabled"})
+        return
+    # control as seen after the clamp (control index space)
+    cl = []
+    for c, (lim, lo, hi) in enumerate(lims):
+        u = ctrl[c]
+        if not noclamp and lim:
+            u = clip(u, lo, hi)
+            if u != ctrl[c]:
                 stats["ctrl_clamped"] += 1
-        us.append(u)
-    # 1. transmission + post-processing
+        cl.append(u)
+    us = [cl[a.ctrladr] for a in acts]
+    # 1. transmission + post-processing (output index space)
     for v in range(nv):
         s = 0.0
-        for i, a in enumerate(acts):
-            s += moment[i][v] * a.force
+        for o in range(nout):
+            s += moment[o][v] * force[o]
         add, g, lim, lo, hi = dofs[v]
         if add:
             s += g
@@ -332,12 +373,35 @@ def oracle(ctx, case, acts, tendons, moment, dofs, qfrc, anext, h, mask, noclamp
             ctx.violation("impl_violation", dict(case, dof=v), expected="clamp(moment^T force + gravcomp) = %r" % s, observed=qfrc[v],
                           theorem="C27_moment_additive", signature={"site": "mj_fwdActuation", "class": "transmission"})
             break
+    # SO3 servos: the norm of the 3-output block is bounded by forcerange[1] of THAT actuator; disabled: zero block
+    seen_multi = False
+    for a in acts:
+        if a.so3:
+            seen_multi = True
+            stats["so3_actuators"] += 1
+            blk = force[a.outadr:a.outadr + 3]
+            nrm = math.sqrt(sum(x * x for x in blk))
+            disabled = 0 <= a.group <= 30 and (mask >> a.group) & 1
+            c = dict(case, actuator=a.idx)
+            if disabled:
+                stats["disabled"] += 1
+                if any(blk):
+                    ctx.violation("impl_violation", c, expected="so3 actuator in disabled group %d produces a zero output block" % a.group, observed=blk,
+                                  theorem="C27_disabled_zero_force", signature={"site": "mj_fwdActuation", "class": "disabled-group"})
+            elif a.fl:
+                if nrm > a.frange[1] * (1 + 1e-12) + 1e-300:
+                    ctx.violation("impl_violation", c, expected="norm of the so3 output block <= forcerange[1] = %r of actuator %d" % (a.frange[1], a.idx), observed=nrm,
+                                  theorem="C27_so3_force_clamped", signature={"site": "mj_fwdActuation", "class": "forcerange"})
+                if abs(nrm - a.frange[1]) <= 1e-9 * (1 + nrm):
+                    stats["so3_clamped"] += 1
+        elif seen_multi and a.fl:
+            stats["scalar_limited_after_multi"] += 1
     # tendon totals of the law forces
     law = [law_force(a, h, mask, u) for a, u in zip(acts, us)]
     tot = {}
     scaled = set()
     for a, f in zip(acts, law):
-        if a.tendon >= 0:
+        if a.tendon >= 0 and not a.so3:
             tot.setdefault(a.tendon, []).append(f)
     for tid, fs in tot.items():
         lim, lo, hi = tendons[tid]
@@ -350,6 +414,8 @@ def oracle(ctx, case, acts, tendons, moment, dofs, qfrc, anext, h, mask, noclamp
                     scaled.add(tid)
                     stats["tendon_scaled"] += 1
     for i, (a, u, f) in enumerate(zip(acts, us, law)):
+        if a.so3:
+            continue
         stats["actuators"] += 1
         key = "dyn%d/gain%d/bias%d" % (a.dyn, a.gain, a.bias)
         stats["by_type"][key] = stats["by_type"].get(key, 0) + 1
